@@ -75,9 +75,10 @@ class AMask:
 class LabelKeys:
     """A label or list of labels wrapped into a numpy array, possibly cast to some dtype."""
 
-    def __init__(self, value, casts=()):
+    def __init__(self, value, casts=(), fits=None):
         self.value = value
         self.casts = tuple(casts)
+        self.fits = fits  # restricted to the labels representable in that input's dtype (the others cannot occur there)
 
     def plain(self):
         return self.value if not self.casts else self
@@ -94,6 +95,27 @@ class LabelKeys:
         return f"labels({self.value!r}{' cast to ' + '/'.join(self.casts) if self.casts else ''})"
 
 
+class ALut:
+    """A lookup table over all values of an input's dtype: value -> entry, 0 where nothing was stored.
+    keys: LabelKeys stored so far; entry: 'same' (the key itself) or 1 (binary)."""
+
+    def __init__(self, dtype: str):
+        self.dtype = dtype  # 'dtypeof:<SIDE>'
+        self.keys = None
+        self.entry = None
+        self.bad = None
+
+    def __repr__(self):
+        return f"lut({self.dtype} keys={self.keys!r} entry={self.entry!r})"
+
+
+class NValues:
+    """np.iinfo(dtype).max + 1: the number of values of an input's dtype."""
+
+    def __init__(self, dtype: str):
+        self.dtype = dtype
+
+
 class RangeInfo:
     """np.iinfo(<dtype of an input array>)"""
 
@@ -108,6 +130,14 @@ class RangeBound:
 
     def __repr__(self):
         return f"iinfo({self.dtype}).{self.which}"
+
+
+class _FitMask:
+    """labels < number of values of a dtype: selects the labels representable in it"""
+
+    def __init__(self, keys, dtype):
+        self.keys = keys
+        self.dtype = dtype
 
 
 class EmptyTest:
@@ -257,6 +287,8 @@ class ArrInterp(ResultInterp):
         return super().iterate(it, node)
 
     def subscript_hook(self, base, idx, node):
+        if isinstance(base, LabelKeys) and isinstance(idx, _FitMask) and idx.keys is base:
+            return LabelKeys(base.value, base.casts, fits=idx.dtype)
         if isinstance(base, LabelKeys) and isinstance(base.value, (list, tuple)) and isinstance(idx, int) and not isinstance(idx, bool):
             try:
                 v = base.value[idx]
@@ -308,6 +340,19 @@ class ArrInterp(ResultInterp):
         return lo_ok and hi_ok
 
     def compare_hook(self, op, l, r, node):
+        # dtype of an input among a tuple of dtypes / the size of an input against a bound of its dtype:
+        # one memoised fact per (input, question)
+        if isinstance(l, Sym) and l.name.startswith("dtypeof:") and isinstance(op, (ast.In, ast.NotIn)) and isinstance(r, (tuple, list)):
+            names = []
+            for x in r:
+                t = getattr(x, "type", x)
+                names.append(t.name if isinstance(t, Sym) else repr(t))
+            u = self._dtype_fact((l.name, "in", tuple(sorted(names))))
+            return u if isinstance(op, ast.In) else self._negate(u, node)
+        if isinstance(l, Sym) and l.name.endswith(".size") and isinstance(r, (RangeBound, NValues)):
+            return self._dtype_fact((l.name, type(op).__name__, repr(r)))
+        if isinstance(l, LabelKeys) and isinstance(r, NValues) and isinstance(op, ast.Lt) and not l.casts:
+            return _FitMask(l, r.dtype)
         # a label against the bounds of an input's dtype: one memoised range fact per question
         if isinstance(r, RangeBound) or isinstance(l, RangeBound):
             rel = {ast.Lt: "<", ast.Gt: ">", ast.LtE: "<=", ast.GtE: ">="}.get(type(op))
@@ -395,6 +440,17 @@ class ArrInterp(ResultInterp):
         return super().exec_stmt(st)
 
     def store_subscript_hook(self, base, idx, v, node):
+        if isinstance(base, ALut):
+            if base.keys is None and isinstance(idx, LabelKeys) and (v == 1 or v is idx or (isinstance(v, LabelKeys) and v == idx and v.fits == idx.fits)):
+                # keys must be representable in the table's dtype: either never cast and filtered to
+                # those that fit (the others cannot occur in an array of that dtype), or marked as cast
+                base.keys = idx
+                base.entry = 1 if (v == 1 and not isinstance(v, LabelKeys)) else "same"
+                if not idx.casts and idx.fits != base.dtype:
+                    base.bad = "labels index the table unfiltered (a label beyond the dtype's range is an index error / wraps)"
+            else:
+                base.bad = f"store {idx!r} <- {v!r}"
+            return
         if isinstance(base, AArr):
             self.root.stores.append((node, base, idx, v, base.is_fresh()))
             applies = isinstance(idx, AMask) and idx.masks(base)
@@ -467,6 +523,27 @@ class ArrInterp(ResultInterp):
                     return m
         if name == "numpy.iinfo" and len(args) == 1 and isinstance(args[0], Sym) and args[0].name.startswith("dtypeof:"):
             return RangeInfo(args[0].name)
+        if name in ("numpy.zeros",) and args and isinstance(args[0], NValues) and not (set(kwargs) - {"dtype"}):
+            dt = kwargs.get("dtype", args[1] if len(args) > 1 else None)
+            if isinstance(dt, Sym) and dt.name == args[0].dtype:
+                return ALut(args[0].dtype)
+        if name == "numpy.take" and len(args) >= 2 and isinstance(args[0], ALut) and isinstance(args[1], AArr) and not (set(kwargs) - {"out", "mode"}):
+            lut, src = args[0], args[1]
+            tgt = args[3] if len(args) > 3 else kwargs.get("out")
+            if lut.dtype != f"dtypeof:{src.side}" or src.selection is not None or src.content != "labels" or lut.bad or lut.keys is None:
+                raise Undecided(f"np.take through a lookup table not modelled: {lut!r} on {src!r} ({lut.bad or ''})")
+            keys = lut.keys if lut.keys.casts else LabelKeys(lut.keys.value)
+            res = AArr(src.side, True, "labels" if lut.entry == "same" else "bin", ("keep", keys.plain() if not keys.casts else keys))
+            res.casts = list(src.casts)
+            if tgt is None:
+                return res
+            if isinstance(tgt, AArr) and tgt.is_fresh() and (getattr(tgt, "uninitialised_like", None) is src or getattr(tgt, "uninitialised_side", None) == src.side):
+                tgt.side, tgt.content, tgt.selection, tgt.casts = res.side, res.content, res.selection, res.casts
+                tgt.uninitialised_like = None
+                tgt.uninitialised_side = None
+                tgt.values_changed()
+                return tgt
+            raise Undecided("np.take into an array that is not a fresh buffer of the input's shape and dtype")
         if name == "numpy.unique" and len(args) == 1 and not kwargs and isinstance(args[0], LabelKeys):
             k = args[0]
             if isinstance(k.value, (list, tuple)) and all(isinstance(v, int) and not isinstance(v, bool) for v in k.value) and not k.casts:
@@ -566,6 +643,8 @@ class ArrInterp(ResultInterp):
         return super().isinstance_hook(v, klass, node)
 
     def binop_hook(self, op, l, r, node):
+        if isinstance(op, ast.Add) and ((isinstance(l, RangeBound) and l.which == "max" and r == 1) or (isinstance(r, RangeBound) and r.which == "max" and l == 1)):
+            return NValues((l if isinstance(l, RangeBound) else r).dtype)
         if isinstance(l, AMask) and isinstance(r, AMask) and isinstance(op, ast.BitOr):
             u = _mask_union(l, r)
             if u is not None:
